@@ -14,10 +14,10 @@ import (
 
 // Cfg tells the Lean model which of the patched behaviours the tree under test shows
 // (probed once per run on three canary schemas; see Containers.lean `Cfg`).
-type Cfg struct{ SlicePrepend, RecordKeyPath, InterPath, LazyWrap, OwValidates bool }
+type Cfg struct{ SlicePrepend, RecordKeyPath, InterPath, LazyWrap, OwValidates, ReqFix bool }
 
 func (c Cfg) Tok() string {
-	return b01(c.SlicePrepend) + b01(c.RecordKeyPath) + b01(c.InterPath) + b01(c.LazyWrap) + b01(c.OwValidates)
+	return b01(c.SlicePrepend) + b01(c.RecordKeyPath) + b01(c.InterPath) + b01(c.LazyWrap) + b01(c.OwValidates) + b01(c.ReqFix)
 }
 
 // Probe detects the three path behaviours.
@@ -58,6 +58,11 @@ func Probe() Cfg {
 		z := types.Slice[string](types.String().Min(3)).Overwrite(func(xs []string) []string { return xs })
 		_, err := z.ParseAny([]string{"ab"})
 		c.OwValidates = err != nil
+	})
+	hx.Safely(func() {
+		// does Object.Required make fields required (or, as before the fix, the others optional)?
+		_, err := types.Object(core.ObjectSchema{"a": types.String()}).Required().ParseAny(map[string]any{})
+		c.ReqFix = err != nil
 	})
 	return c
 }
